@@ -64,8 +64,16 @@ def cases(seed, tier):
                 while s["est_dep"] in used_e:
                     s["est_dep"] += 1
                 used_e.add(s["est_dep"])
-        if rng.random() < 0.25:
+        if rng.random() < 0.35:
             d["network"]["arith"] = True  # constraints assembled by Current arithmetic over the same station set (see build_network)
+            ids_w = [s_["id"] for s_ in d["network"]["stations"]]
+            if len(ids_w) >= 2 and rng.random() < 0.7:
+                # ... one of them a weighted feeder with unequal coefficients that binds (a metering point that sees some stations
+                # through a transformer tap): attaching a coefficient to the wrong station changes who gets what
+                co_ = {i_: rng.choice([1, 0.5, 0.25, 2]) for i_ in ids_w}
+                if len(set(co_.values())) == 1:
+                    co_[ids_w[0]] = 0.5 if co_[ids_w[0]] != 0.5 else 2
+                d["network"]["constraints"].append({"name": "weighted", "coeffs": co_, "limit": round(0.45 * sum(c_ * 16 for c_ in co_.values()), 2) + 0.37})
         out.append({"desc": d, "pseed": rng.randrange(1 << 30)})
     # corpus: a tight branch under a roomy main feeder, finite-rate stations with a non-zero minimum pilot, uninterrupted
     # charging: some session cannot get its minimum while later ones can; distinct arrivals, departures and estimates (no ties)
